@@ -16,6 +16,10 @@
      C02_page_rows   on a page rendered in segments around group headings, the rendered items are an
                      order-preserving interleaving of the page's data rows (each exactly once, encoded at
                      its own row offset) with heading rows.
+     C02_page_body + C02_section_bounds   the capstone: for EVERY page of EVERY section (no group_by) the rendered
+                     page is  pre ++ body ++ post  where body is an order-preserving interleaving of heading rows with
+                     table_encode of exactly that page's row slice - the hypothesis of C02_page_rows (boundaries
+                     increasing and inside the slice) is proved for all pages the pagination builds.
    C02_partial: what is still missing for the full statement is decode (escape (convert s)) = s on the C02
    text domain, which is C10/C11's theorem, and the identification of cell k of rendered row j with
    value (j, k) (definitional in encode_cells).  The predicate check_c02 is evaluated on the
@@ -69,6 +73,21 @@ Theorem C02_page_rows : forall ctx s a cw rows bounds prev last its,
   exists data heads, table_encode ctx a cw (skipn prev rows) prev = Ok data /\ Shuffle data heads its.
 Proof. exact render_segments_rows. Qed.
 Print Assumptions C02_page_rows.
+
+Theorem C02_page_body : forall ctx s pf cw rows pattrs p its,
+  render_page ctx s pf cw rows pattrs p = Ok its ->
+  bounds_ok (length (page_rows rows p)) (pc_bounds p) ->
+  exists pre bodyi post data heads,
+    its = pre ++ bodyi ++ post /\ Shuffle data heads bodyi /\
+    table_encode ctx (pb_attrs (process_page s pattrs p (length (f_cols pf)))) cw (page_rows rows p) 0 = Ok data.
+Proof. exact page_body_is_its_rows. Qed.
+Print Assumptions C02_page_body.
+
+Theorem C02_section_bounds : forall s pf pattrs cw pages rows,
+  section_pages s = Ok (pf, pattrs, cw, pages, rows) -> no_group_by (s_body s) ->
+  Forall (fun p => bounds_ok (length (page_rows rows p)) (pc_bounds p)) pages.
+Proof. exact section_pages_bounds. Qed.
+Print Assumptions C02_section_bounds.
 
 Example C02_slices_example :
   let mk n := {| pc_num := 1; pc_total := 1; pc_start := 0; pc_len := n; pc_first := true; pc_last := true;
